@@ -190,6 +190,18 @@ def run_unit(unit, rec):
                         if not ok:
                             _v(rec, "a" if inp == "plain" else "e", dict(sig, what="value"), "%s differs from I*lambda/(h c N_A) (or its inverse)" % direction, case, observed=got if got.size < 20 else got.ravel()[:20], expected=exp if np.size(exp) < 20 else np.ravel(exp)[:20])
                             continue
+                        # integer-typed spectra (photon counts, digitiser units): the same numbers as floats
+                        if inp == "plain" and ru is None and arr_np.ndim >= 1 and np.all(arr_np * 4 == np.round(arr_np * 4)) and sname != "zero":
+                            rec.trans()
+                            try:
+                                oi = _mag(fn((arr_np * 4).astype(np.int64), w_in, **kw))
+                                oki = oi.shape == np.shape(exp) and np.all(np.abs(oi - 4 * exp) <= 1e-12 * np.abs(4 * exp) + 1e-300)
+                            except Exception as e:  # noqa
+                                oki = False
+                            rec.outcome("int-typed/%s" % ("ok" if oki else "bad"))
+                            if not oki:
+                                _v(rec, "a", dict(sig, what="int-typed"), "%s of an integer-typed spectrum differs from the conversion of the same values as floats" % direction, dict(case, dtype="int"),
+                                   script="import numpy as np, dreye\nx = np.array(%r)\nprint(dreye.%s(x, np.array(%r), prefix=%r%s))\n" % ((arr_np * 4).astype(np.int64).tolist(), direction, np.asarray(w).tolist(), prefix, "" if axis is None else ", axis=%d" % axis))
                         # b: exact inverse (plain round trip)
                         if ru in (None,) and sname in ("combo", "onehot0"):
                             rec.trans()
